@@ -57,7 +57,7 @@ def make_cases(rng, tier, res, stats):
     n_schemas = 350 if tier == "quick" else 5000
     n_vals = 5 if tier == "quick" else 8
     cfg = gen.Cfg(max_depth=3 if tier == "quick" else 4)
-    items = [(s, vals + [sc.NP], "corpus") for s, vals in CORPUS]
+    items = [(s, vals + no_value(s), "corpus") for s, vals in CORPUS]
     for i in range(n_schemas):
         r = rng.random()
         if r < 0.12:
@@ -72,8 +72,18 @@ def make_cases(rng, tier, res, stats):
         vals = [gen.gen_value(rng, s) for _ in range(n_vals)]
         if rng.random() < 0.5:
             vals.append(gen.lookalike(rng, vals[0]))
-        items.append((s, vals + [sc.NP], stream))
+        items.append((s, vals + no_value(s), stream))
     return items
+
+
+def no_value(s):
+    """the no-value call, checked against the model here too - except where finding C05-K14 applies (a class-level default
+    next to a property named `default`: the call raises TypeError; recorded under C05, and not a JSON value anyway)"""
+    import findings
+    for x in findings.subschemas(s):
+        if isinstance(x, dict) and x.get("type") == "object" and "default" in x and isinstance(x.get("properties"), dict) and "default" in x["properties"]:
+            return []
+    return [sc.NP]
 
 
 def run(tier, seed, replay=None):
@@ -88,6 +98,11 @@ def run(tier, seed, replay=None):
         items = make_cases(rng, tier, res, stats)
     cases, metas = [], []
     for s, vals, stream in items:
+        if not replay and not no_value(s):
+            # finding C05-K14 (class-level default next to a property named `default`): every call that reaches the class
+            # with no value raises TypeError; recorded and judged under C05, not here
+            stats["skipped_k14"] = stats.get("skipped_k14", 0) + 1
+            continue
         try:
             ob = sc.observe(s, vals)
         except Unmodelled as exc:
